@@ -121,6 +121,31 @@ Section CD.
         length pres = length vals /\ count = count_true pres /\ base + nlen vals <= usize_max
     end.
 
+  Lemma cget_dense base vals pres c j :
+    cget (Dense base vals pres c) j =
+    if j <? base then None else arr_get vals pres (N.to_nat (j - base)).
+  Proof.
+    cbn [cget]. destruct (j <? base); [reflexivity|].
+    destruct (nlen vals <=? j - base) eqn:E; [|reflexivity].
+    unfold arr_get, nlen in *.
+    destruct (Nat.ltb (N.to_nat (j - base)) (length vals)) eqn:L; [lia | reflexivity].
+  Qed.
+
+  Lemma cremove_dense base vals pres count idx :
+    cremove dflt (Dense base vals pres count) idx =
+    if idx <? base then Some (Dense base vals pres count)
+    else
+      let n := N.to_nat (idx - base) in
+      if (Nat.ltb n (length vals)) && bitn pres n then
+        if count =? 0 then None
+        else Some (Dense base (upd vals n dflt) (upd pres n false) (count - 1))
+      else Some (Dense base vals pres count).
+  Proof.
+    cbn [cremove]. destruct (idx <? base); [reflexivity|]. cbv zeta. unfold nlen.
+    destruct (N.of_nat (length vals) <=? idx - base) eqn:E;
+      destruct (Nat.ltb (N.to_nat (idx - base)) (length vals)) eqn:L; try lia; reflexivity.
+  Qed.
+
   Lemma arr_get_upd_set vals pres n v j :
     (n < length vals)%nat -> (n < length pres)%nat ->
     arr_get (upd vals n v) (upd pres n true) j = if Nat.eqb j n then Some v else arr_get vals pres j.
@@ -229,7 +254,7 @@ Section CD.
   Qed.
 
   Lemma centries_get (d : cdata T) j : aget (centries d) j = cget d j.
-  Proof. destruct d as [m|b vals pres c]; cbn; [reflexivity | apply dense_entries_get]. Qed.
+  Proof. destruct d as [m|b vals pres c]; [reflexivity | rewrite cget_dense; apply dense_entries_get]. Qed.
 
   (* ---- maybe_promote ---- *)
   Lemma min_key_le (m : list (N * T)) : forall acc, min_key m acc <= acc /\ forall k, In k (map fst m) -> min_key m acc <= k.
@@ -320,7 +345,7 @@ Section CD.
       + destruct (build_count m mn sp (repeat false sp) (repeat_length _ _) Hnd Hrange (bitn_repeat_false sp)) as [C _].
         rewrite C, count_true_repeat_false. lia.
       + unfold nlen. rewrite L1. unfold sp. lia.
-    - intros j. cbn [cget]. destruct (j <? mn) eqn:L.
+    - intros j. rewrite ?cget_dense; cbn [cget]. destruct (j <? mn) eqn:L.
       + symmetry. apply aget_none. intros Hin. pose proof (Hmin j Hin). lia.
       + rewrite (build_get m mn sp) by (try apply repeat_length; try exact Hrange; lia).
         destruct (aget m j); [reflexivity|]. unfold arr_get. rewrite bitn_repeat_false, andb_false_r. reflexivity.
@@ -354,7 +379,7 @@ Section CD.
         eexists. split; [reflexivity|]. split.
         * cbn. rewrite !upd_length. split; [exact HL|]. split; [|unfold nlen; rewrite upd_length; exact HB].
           pose proof (count_true_upd pres n true ltac:(lia)) as U. destruct (bitn pres n); lia.
-        * intros j. cbn [cget]. destruct (j <? base) eqn:L.
+        * intros j. rewrite ?cget_dense; cbn [cget]. destruct (j <? base) eqn:L.
           -- destruct (j =? idx) eqn:E; [lia|reflexivity].
           -- rewrite arr_get_upd_set by lia. fold n.
              destruct (Nat.eqb (N.to_nat (j - base)) n) eqn:E1, (j =? idx) eqn:E2; try reflexivity; unfold n in *; lia.
@@ -363,7 +388,7 @@ Section CD.
         { eexists. split; [reflexivity|]. split.
           - apply sparse_inv_ains; [apply dense_entries_nodup | | exact Hidx].
             apply Forall_forall. intros k Hk. apply dense_entries_keys in Hk. unfold nlen in Hk. lia.
-          - intros j. cbn [cget]. rewrite aget_ains, dense_entries_get. reflexivity. }
+          - intros j. rewrite ?cget_dense; cbn [cget]. rewrite aget_ains, dense_entries_get. reflexivity. }
         destruct (base <=? idx) eqn:Eb.
         * destruct (usize_max <=? idx - base) eqn:Eo; [lia|].
           destruct (dense_is_smaller (idx - base + 1) (count + 1) elem); [|exact Hfb].
@@ -382,7 +407,7 @@ Section CD.
                 { unfold bitn. rewrite nth_error_app2 by lia. apply bitn_repeat_false. }
                 rewrite Hb, count_true_app, count_true_repeat_false in U. lia.
              ++ unfold nlen. rewrite upd_length, app_length, repeat_length. lia.
-          -- intros j. cbn [cget]. destruct (j <? base) eqn:L.
+          -- intros j. rewrite ?cget_dense; cbn [cget]. destruct (j <? base) eqn:L.
              ++ destruct (j =? idx) eqn:E; [lia|reflexivity].
              ++ rewrite arr_get_upd_set by (rewrite app_length, repeat_length; lia).
                 rewrite arr_get_grow by exact HL.
@@ -399,7 +424,7 @@ Section CD.
                 { unfold bitn. rewrite nth_error_app1 by (rewrite repeat_length; lia). apply bitn_repeat_false. }
                 rewrite Hb, count_true_app, count_true_repeat_false in U. rewrite (shifted_pres_id vals pres HL) in U |- *. cbv iota in U. lia.
              ++ unfold nlen. rewrite upd_length, app_length, repeat_length, S1. unfold s. lia.
-          -- intros j. cbn [cget]. destruct (j <? idx) eqn:L.
+          -- intros j. rewrite ?cget_dense; cbn [cget]. destruct (j <? idx) eqn:L.
              ++ destruct (j =? idx) eqn:E; [lia|]. destruct (j <? base) eqn:L2; [reflexivity|lia].
              ++ rewrite arr_get_upd_set by (rewrite app_length, repeat_length; lia).
                 rewrite arr_get_shift_prefix, arr_get_shifted.
@@ -418,16 +443,16 @@ Section CD.
     exists d', cremove dflt d idx = Some d' /\ DInv d' /\
                forall j, cget d' j = if j =? idx then None else cget d j.
   Proof.
-    intros HI. destruct d as [m|base vals pres count]; cbn [cremove].
+    intros HI. destruct d as [m|base vals pres count]; [cbn [cremove] | rewrite cremove_dense].
     - destruct HI as [H1 H2]. eexists. split; [reflexivity|]. split.
       + cbn. split; [apply nodup_aremove, H1|]. rewrite Forall_forall in *. intros x Hx.
         apply keys_aremove in Hx. apply H2. tauto.
       + intros j. cbn. apply aget_aremove.
     - destruct HI as [HL [HC HB]].
       destruct (idx <? base) eqn:L.
-      { eexists. split; [reflexivity|]. split; [cbn; auto|]. intros j. cbn [cget].
+      { eexists. split; [reflexivity|]. split; [cbn; auto|]. intros j. rewrite ?cget_dense; cbn [cget].
         destruct (j =? idx) eqn:E; [|reflexivity]. destruct (j <? base) eqn:L2; [reflexivity|lia]. }
-      set (n := N.to_nat (idx - base)).
+      cbv zeta. set (n := N.to_nat (idx - base)).
       destruct ((Nat.ltb n (length vals)) && bitn pres n) eqn:Ep.
       + assert (Hn : (n < length pres)%nat) by lia.
         pose proof (count_true_upd pres n false Hn) as U.
@@ -436,11 +461,11 @@ Section CD.
         destruct (count =? 0) eqn:E0; [lia|].
         eexists. split; [reflexivity|]. split.
         * cbn. rewrite !upd_length. split; [exact HL|]. split; [lia|]. unfold nlen in *. rewrite upd_length. exact HB.
-        * intros j. cbn [cget]. destruct (j <? base) eqn:L2.
+        * intros j. rewrite ?cget_dense; cbn [cget]. destruct (j <? base) eqn:L2.
           -- destruct (j =? idx) eqn:E; [lia|reflexivity].
           -- rewrite arr_get_upd_clear. fold n.
              destruct (Nat.eqb (N.to_nat (j - base)) n) eqn:E1, (j =? idx) eqn:E2; try reflexivity; unfold n in *; lia.
-      + eexists. split; [reflexivity|]. split; [cbn; auto|]. intros j. cbn [cget].
+      + eexists. split; [reflexivity|]. split; [cbn; auto|]. intros j. rewrite ?cget_dense; cbn [cget].
         destruct (j =? idx) eqn:E; [|reflexivity]. apply N.eqb_eq in E. subst j. rewrite L.
         unfold arr_get. fold n. rewrite Ep. reflexivity.
   Qed.
